@@ -444,7 +444,7 @@ pub fn run(ctx: &Ctx) {
         exhaustive(ctx, bs, nb, l, len);
     }
     if !ctx.failed() {
-        ctx.run_random(&Random, t.pick(10_000, 400_000), move || strategy(t));
+        ctx.run_random(&Random, t.pick(100_000, 2_000_000), move || strategy(t));
         ctx.require_class("random_history", "eviction", 0.1);
         ctx.require_class("random_history", "duplicate_insert", 0.3);
         ctx.require_class("random_history", "delete_absent_class", 0.2);
